@@ -1,4 +1,5 @@
 import CvProps.C12Lemmas
+import CvModel.Combine
 /-!
 # C12 — results do not depend on threading or on the order of evaluation
 
@@ -69,5 +70,50 @@ theorem conflict_is_visible :
 example : Independent ({ item := 0, reads := [0], write := 5, f := fun m => m 0 } : Act Nat)
                       { item := 1, reads := [0], write := 6, f := fun m => m 0 + 1 } := by
   refine ⟨by decide, by decide, by decide⟩
+
+/-! ## work items of the component-parallel loop (model `CvModel/Combine.lean`) -/
+
+open Cv.Combine in
+theorem head_filter_range (n i : Nat) (p : Nat → Bool) (hi : i < n) (hp : p i = true) :
+    ((List.range n).filter fun j => decide (i ≤ j) && p j).head? = some i := by
+  rw [List.head?_filter]
+  rw [List.find?_eq_some_iff_append]
+  refine ⟨by simp [hp], List.range i, List.range' (i + 1) (n - i - 1), ?_, ?_⟩
+  · rw [List.range_eq_range', List.range_eq_range']
+    have h1 : List.range' 0 n = List.range' 0 i ++ List.range' (0 + i) (n - i) := by
+      rw [List.range'_append_1]; congr 1; omega
+    rw [h1]
+    congr 1
+    have : n - i = (n - i - 1) + 1 := by omega
+    rw [this, List.range'_succ]
+    simp
+  · intro x hx
+    have := List.mem_range.mp hx
+    simp; omega
+
+open Cv.Combine in
+/-- every work item computes the component whose index it carries: with one item per enabled component, each enabled
+    component is computed exactly once and no disabled one is touched, whatever the pattern of flags -/
+theorem work_items_compute_each_enabled_once (flags : List Bool) :
+    (workItems flags).map (computedBy flags) = (workItems flags).map some := by
+  apply List.map_congr_left
+  intro i hi
+  unfold workItems at hi
+  obtain ⟨hr, hf⟩ := List.mem_filter.mp hi
+  exact head_filter_range flags.length i (fun j => flags.getD j false) (List.mem_range.mp hr) hf
+
+open Cv.Combine in
+/-- the items are exactly the enabled indices, in increasing order, without repetition -/
+theorem work_items_are_the_enabled (flags : List Bool) (i : Nat) :
+    i ∈ workItems flags ↔ (i < flags.length ∧ flags.getD i false = true) := by
+  unfold workItems
+  rw [List.mem_filter, List.mem_range]
+
+open Cv.Combine in
+/-- numbering the items by their rank among the enabled components (the code before repair 99e8a6f9) does not have this
+    property: with the first of three components switched off, component 1 is computed twice and component 2 never -/
+theorem rank_numbering_recomputes :
+    (workItemsByRank [false, true, true]).map (computedBy [false, true, true]) = [some 1, some 1] := by
+  decide
 
 end Cv.C12
